@@ -40,7 +40,7 @@ type stats struct {
 	Nontrivial  int            `json:"nontrivial"`
 	Steps       int64          `json:"steps"`
 	Switches    int64          `json:"switches"`
-	VirtNs      int64          `json:"virtual_ns"`
+	VirtS       float64        `json:"virtual_s"`
 	Truncated   int            `json:"truncated"`
 	Leaked      int            `json:"leaked_tasks"`
 	Probes      map[string]int `json:"probes"`
@@ -485,7 +485,7 @@ func runCheck(id, tier string, seed uint64, workers, runs, ms int, replay, work 
 		tot.Nontrivial += o.Stats.Nontrivial
 		tot.Steps += o.Stats.Steps
 		tot.Switches += o.Stats.Switches
-		tot.VirtNs += o.Stats.VirtNs
+		tot.VirtS += o.Stats.VirtS
 		tot.Truncated += o.Stats.Truncated
 		tot.Leaked += o.Stats.Leaked
 		tot.PorcOK += o.Stats.PorcOK
@@ -611,7 +611,7 @@ func runCheck(id, tier string, seed uint64, workers, runs, ms int, replay, work 
 			"samples":                               samples,
 			"scheduling_steps":                      tot.Steps,
 			"context_switches":                      tot.Switches,
-			"simulated_time_s":                      float64(tot.VirtNs) / 1e9,
+			"simulated_time_s":                      tot.VirtS,
 			"truncated_runs":                        tot.Truncated,
 			"tasks_left_blocked_after_drain":        tot.Leaked,
 			"bubbles_ended_with_blocked_goroutines": leakedBubbles,
@@ -642,7 +642,7 @@ func runCheck(id, tier string, seed uint64, workers, runs, ms int, replay, work 
 		return 2
 	}
 	fmt.Printf("check %s tier=%s seed=%d: %d runs (%d non-trivial, %d distinct), %d steps, %.0f simulated s, %.1fs wall (%.1fs build), %d workers\n",
-		id, tier, seed, tot.Evaluations, tot.Nontrivial, len(distinct), tot.Steps, float64(tot.VirtNs)/1e9, wall, buildS, workers)
+		id, tier, seed, tot.Evaluations, tot.Nontrivial, len(distinct), tot.Steps, tot.VirtS, wall, buildS, workers)
 	if len(unknown) > 0 {
 		for _, a := range unknown {
 			fmt.Printf("  violation class=%s key=%s runs=%d stable_replay=%v\n    %s\n", a.v.Class, a.v.Key, a.count, a.v.Stable, a.v.Msg)
